@@ -57,10 +57,24 @@ var transportOrders = [][]string{
 	{"sse", "mixed", "post", "get", "form", "multipart", "graphql", "websocket", "options"},
 }
 
-func buildServer(rh rhSetting, order []string) *handler.Server {
+// cloneHeaders gives every transport its own copy of the configured map: the specification function
+// reads rhSettings, so nothing the server does to its configuration may leak into the oracle.
+func cloneHeaders(h map[string][]string) map[string][]string {
+	if h == nil {
+		return nil
+	}
+	out := make(map[string][]string, len(h))
+	for k, v := range h {
+		out[k] = append([]string(nil), v...)
+	}
+	return out
+}
+
+func buildServer(rh0 rhSetting, order []string) *handler.Server {
 	es := tx.NewExecutableSchema(tx.Config{Resolvers: txharness.Stub()})
 	srv := handler.New(es)
 	for _, n := range order {
+		rh := rhSetting{Name: rh0.Name, Headers: cloneHeaders(rh0.Headers)}
 		var t graphql.Transport
 		switch n {
 		case "websocket":
